@@ -16,10 +16,10 @@ def world():
     w = {'__bases__': {}}
     for cls in ('MovieFragmentHeaderBox', 'MovieExtendsHeaderBox', 'TrackExtendsBox', 'TrackFragmentDecodeTimeBox',
                 'TrackFragmentHeaderBox', 'TrackFragmentRunBox', 'TrackEncryptionBox', 'MediaHeaderBox', 'EventMessageBox', 'ContentProtectionSpecificBox', 'SegmentIndexBox',
-                'SampleAuxiliaryInformationSizesBox'):
+                'SampleAuxiliaryInformationSizesBox', 'SampleAuxiliaryInformationOffsetsBox'):
         w['__bases__'][cls] = ['FullBox']
     w['ISO_EPOCH'] = DT(z3.IntVal(ISO_EPOCH_US))
-    for nm in ('creation_s', 'modification_s', 'default_kid', 'payload', 'system_id', 'kid0', 'kid1', 'kid2', 'sz0', 'sz1', 'sz2',
+    for nm in ('creation_s', 'modification_s', 'default_kid', 'payload', 'system_id', 'kid0', 'kid1', 'kid2', 'sz0', 'sz1', 'sz2', 'off0', 'off1', 'senc_pos',
                'aux_info_type', 'aux_info_type_parameter', 'default_sample_info_size'):
         w[nm] = z3.Int(nm)
     for k in range(2):
@@ -428,6 +428,31 @@ def aux_json_contract(cls, has_aux):
 AUX_JSON = [aux_json_contract(c, a) for c in ('SampleAuxiliaryInformationSizesBox', 'SampleAuxiliaryInformationOffsetsBox')
             for a in (True, False)]
 
+# --- saio (offsets of the per-sample auxiliary information): optional aux type, 32- or 64-bit entries, the list as given
+def saio_box_contract(k):
+    def env(w, o):
+        o.f.update(aux_info_type=z3.Int('aux_info_type'), aux_info_type_parameter=z3.Int('aux_info_type_parameter'),
+                   offsets=PyList([z3.Int(f'off{j}') for j in range(k)]))
+    has_aux = '(old(self.flags) % 2 == 1)'
+    req = [u32('aux_info_type'), u32('aux_info_type_parameter')] + \
+          [(f'off{j}_fits_version', f'0 <= off{j} and off{j} < ({U64} if self.version == 1 else {U32})') for j in range(k)]
+    rt = ("result['version'] == old(self.version) and result['flags'] == old(self.flags) and "
+          f"(result['aux_info_type'] == old(self.aux_info_type) and result['aux_info_type_parameter'] == old(self.aux_info_type_parameter) "
+          f"if {has_aux} else True) and length(result['offsets']) == {k}" + ''.join(f" and result['offsets'][{j}] == off{j}" for j in range(k)))
+    c = box_contract('SampleAuxiliaryInformationOffsetsBox', [], req, extra_env=env, roundtrip=rt,
+                     size=f'4 + (8 if {has_aux} else 0) + 4 + {k} * (8 if self.version == 1 else 4)')
+    c.variant = f'SampleAuxiliaryInformationOffsetsBox+{k}offsets'
+    c.props = ['C04', 'C03']
+    # an offsets list that is given (even an empty one) is written as it is; only `None` asks for the senc position
+    c.models = dict(c.models, **{'self.find_first_cenc_sample': lambda eng, e, a, kw: Opt(z3.Bool('senc_missing'), z3.Int('senc_pos'))})
+    c.canaries = ["length(result['offsets']) == 7"]
+    names = ['version', 'flags', 'aux_info_type', 'aux_info_type_parameter'] + [f'off{j}' for j in range(k)]
+    c.witness_terms = lambda w: (lambda ev: dict({n: ev(z3.Int(n)) for n in names + ['senc_pos']}, senc_missing=ev(z3.Bool('senc_missing'))))
+    return c
+
+
+SAIO_BOX = [saio_box_contract(0), saio_box_contract(1), saio_box_contract(2)]
+
 SAIZ = [saiz_contract(0, True), saiz_contract(1, True), saiz_contract(3, True), saiz_contract(2, False)]
 
 # --- trun with its sample table (k samples; every optional per-sample field governed by the trun flags)
@@ -488,7 +513,7 @@ TRUN_SAMPLES = [trun_samples_contract(2, f) for f in _trun_flag_sets()] + [trun_
 INLINE = [Contract(key=f'{MP4}:{cls}.encode_box_fields', props=[], inline=True)
           for cls in ('MovieFragmentHeaderBox', 'MovieExtendsHeaderBox', 'TrackExtendsBox', 'TrackFragmentDecodeTimeBox',
                       'TrackFragmentHeaderBox', 'TrackFragmentRunBox', 'TrackEncryptionBox', 'MediaHeaderBox', 'EventMessageBox', 'ContentProtectionSpecificBox', 'SegmentIndexBox',
-                      'SampleAuxiliaryInformationSizesBox')] + \
+                      'SampleAuxiliaryInformationSizesBox', 'SampleAuxiliaryInformationOffsetsBox')] + \
          [Contract(key=f'{MP4}:FullBox.parse', props=[], inline=True),
           Contract(key=f'{MP4}:TrackFragmentRunBox.output_box_fields', props=[], inline=True),
           Contract(key='dashlive/utils/binary.py:Binary.__len__', props=[], inline=True),
@@ -799,7 +824,7 @@ FIND_FIRST = Contract(key=f'{MP4}:SampleAuxiliaryInformationOffsetsBox.find_firs
 
 GROUP = Group(
     name='mp4', world=world,
-    contracts=[MFHD, MEHD, TREX, TFDT, TFHD, TRUN, TENC, MDHD] + EMSG + PSSH + SIDX + SAIZ + AUX_JSON + ENCODE + HEADER + TRUN_SAMPLES + [BTRT, PASP, TFDT_SETATTR, TRUN_POST_ENCODE] + SAIO + [FIND_FIRST] + INLINE,
+    contracts=[MFHD, MEHD, TREX, TFDT, TFHD, TRUN, TENC, MDHD] + EMSG + PSSH + SIDX + SAIZ + SAIO_BOX + AUX_JSON + ENCODE + HEADER + TRUN_SAMPLES + [BTRT, PASP, TFDT_SETATTR, TRUN_POST_ENCODE] + SAIO + [FIND_FIRST] + INLINE,
     assumptions=[
         'C04: FieldWriter.__init__/write and FieldReader.__init__/read/get/skip (dashlive/utils/fio) are analysed as real code '
         '(inlined at every call, for the format codes the boxes under contract use); struct.pack / struct.unpack (stdlib) and '
